@@ -4,7 +4,7 @@
    [appended l t r] the call r returned a line whose text is the text of l followed by exactly t;
    [fld name t] = " name=" ++ t.  Reference renderings: Spec/TextSpec.v. *)
 From PV Require Import Base.Prelude Model.Fastlog Model.FastlogOps Model.FastlogAsFound Spec.TextSpec
-  Proofs.Fastlog Proofs.FastlogIP6 Proofs.FastlogLine Proofs.FastlogInside Proofs.FastlogAsFound.
+  Proofs.Fastlog Proofs.FastlogIP6 Proofs.FastlogLine Proofs.FastlogInside Proofs.FastlogMsg Proofs.FastlogAsFound.
 Open Scope N_scope.
 
 (* Uint8 / Uint16 / Uint32 print strconv's decimal text *)
@@ -156,6 +156,20 @@ Example C20_arrays_inside_nonvacuous :
   (BUFSZ < List.length (spec_text (OByteArr [97%N] (repeat 255%N 3000))))%nat.
 Proof. exact arrays_inside_nonvacuous. Qed.
 Print Assumptions C20_arrays_inside_nonvacuous.
+
+(* Logger.Msg on any pooled buffer: the line starts with the 7-byte module tag and the quoted message *)
+Theorem C20_msg : forall b0 m msg,
+  List.length b0 = BUFSZ -> (List.length (msg_text m msg) <= BUFSZ)%nat ->
+  exists l, msg_line b0 m msg = Ok l /\ wf l /\ index l = List.length (msg_text m msg) /\
+            to_string l = Ok (msg_text m msg).
+Proof. exact msg_renders. Qed.
+Print Assumptions C20_msg.
+
+(* the reference decimal text denotes its number, for every natural number (the other reference
+   renderings are validated against the Go standard library by the harness) *)
+Theorem C20_spec_dec_value : forall n, dec_value (dec n) = n.
+Proof. exact dec_value_dec. Qed.
+Print Assumptions C20_spec_dec_value.
 
 (* ---------------------------------------------------------------------------------------------
    The code AS FOUND (/repo 040c128) violated the property in five ways; each was reproduced on
